@@ -52,8 +52,9 @@ class Backend:
             st.update(rc2_state(I, query_slots=False))
             if query_slots:
                 # the query's CNFs are placed where the operator's own `_inference` puts them (W.query-slot)
+                who = ("obj", "previous-query") if query_slots == "prev" else QUERY
                 for container, key, kind in (self.qslots or []):
-                    val = cnf_value(verification(QUERY) if kind == "v" else falsification(QUERY))
+                    val = cnf_value(verification(who) if kind == "v" else falsification(who))
                     if container == "state":
                         st[key] = val
                     else:
@@ -217,6 +218,20 @@ def check_ignore(rep, site, ev, prefix):
               extracted=det if not verdict else "keys of the other layers", required="keys of the layers ≠ k", function=site)
 
 
+def incoming_unchanged(rep, site, p, prefix):
+    """The WCNF handed in belongs to the caller, which goes on using it for its next tie: it is copied, not extended."""
+    for ev, Q in iter_events(p.events):
+        if ev.kind == "enter" and not Q:
+            for a in ev.args:
+                if isinstance(a, Ref):
+                    o = p.state.heap.get(a.oid)
+                    if isinstance(o, HWcnf):
+                        ok = list(o.hard) == [HEAD] and not o.soft
+                        rep.check(ok, f"{prefix}.balance", site, "incoming constraints untouched", "the constraint object of the caller is copied, not extended (the caller reuses it for the next tie)",
+                                  extracted=show_items([norm_witem(i) for i in o.hard]) + (" soft " + show_items([norm_witem(i) for i in o.soft]) if o.soft else ""), required=show_items([HEAD]), function=site)
+            break
+
+
 def check_balance(rep, site, p, prefix):
     """Scope balance of incremental optimizers: what a tie pushes is popped before the next tie; nothing pops below
     the scope of entry."""
@@ -320,6 +335,8 @@ def w_rec(rep, ex: Explorer, be: Backend):
         if p.outcome[0] == "raise":
             continue
         check_balance(rep, site, p, "W")
+        if be.name == "rc2":
+            incoming_unchanged(rep, site, p, "W")
         sides = check_sides(rep, be, site, p, "W")
         if set(sides) != {"v", "f"}:
             rep.violation("W.soft/hard", site, "two sides", "minimal correction sets are computed for the verification and for the falsification of the query",
@@ -500,13 +517,14 @@ def subset_test_mismatch(pred, V, Fm):
 # ----------------------------------------------------------------------------------------------
 # `_inference` of the MaxSAT-based operators
 # ----------------------------------------------------------------------------------------------
-def entry_paths(rep, ex: Explorer, be: Backend):
+def entry_paths(rep, ex: Explorer, be: Backend, history=False):
+    """`_inference` explored on a fresh state, or (history=True) on the state an earlier query left behind."""
     def extra(I):
-        st, pm = be.state(I, query_slots=False)
+        st, pm = be.state(I, query_slots="prev" if history else False)
         st.pop("partition", None)
         return st
 
-    return inference_entry(rep, ex, be.cls, kind=be.kind, extra_state=extra, key=f"entry-{be.name}", pcls=CONDZ3_CLASS if be.name == "z3" else "",
+    return inference_entry(rep, ex, be.cls, kind=be.kind, extra_state=extra, key=f"entry-{be.name}-{'hist' if history else 'fresh'}", pcls=CONDZ3_CLASS if be.name == "z3" else "",
                            summaries=be.summaries(), hooks=be.hooks(), pmaxsat=Const("rc2") if be.name == "rc2" else Const("z3"))
 
 
@@ -523,7 +541,7 @@ def rec_objects(be: Backend, rc):
     return out
 
 
-def query_slots(rep, be: Backend, site, p, prefix, keys=False):
+def query_slots(rep, be: Backend, site, p, prefix, keys=False, history=False):
     """rc2: the query's CNFs are stored where `_rec_inference` reads them (the reader side is decided by
     W/LEX.soft/hard on a state seeded from these very stores); QUERYSLOT.def-before-use: both are written before the
     recursion starts; KEY.no-reserved: not under a literal key of a dictionary that is keyed by the base's keys."""
@@ -558,7 +576,7 @@ def query_slots(rep, be: Backend, site, p, prefix, keys=False):
     if rcs:
         first = min(rcs)
         okw = all(k in kinds and kinds[k] < first for k in ("v", "f"))
-        rep.check(okw, "QUERYSLOT.def-before-use", site, "query slots written first", "both query slots are (re)written for the current query before the recursion reads them",
+        rep.check(okw, "QUERYSLOT.def-before-use", site, "query slots written first" + (" (state of an earlier query present)" if history else ""), "both query slots are (re)written for the current query before the recursion reads them",
                   extracted=str({k: (v < first) for k, v in kinds.items()}), required="v and f written before use", function=site)
 
 
@@ -581,6 +599,11 @@ def w_entry(rep, ex: Explorer, be: Backend, strict=True, extended=False, prefix=
     if be.name == "rc2":
         for p in paths:
             query_slots(rep, be, site, p, prefix, keys=keys)
+        # the same on the state a previous query left behind (second call on one manager, later query of a batch)
+        be.discover_query_slots(ex)
+        _, hpaths = entry_paths(rep, ex, be, history=True)
+        for p in hpaths:
+            query_slots(rep, be, site, p, prefix, keys=False, history=True)
     if strict:
         start_strict(rep, site, paths, prefix, strict_obj)
     if extended:
